@@ -12,7 +12,7 @@ import (
 	. "rdmverif/engine"
 )
 
-// Fresh processes (DESIGN.md 3.4): a list of requests is answered, in the given order, by a new process of this very
+// Fresh processes (DESIGN.md 3.5): a list of requests is answered, in the given order, by a new process of this very
 // binary; the parent compares the answers with its own. Whatever a process remembers from earlier requests (memo
 // tables, pooled buffers, cached generators) is empty there, and the order of the list is the history of that process.
 
